@@ -818,6 +818,28 @@ class Gen(object):
             return ["const"]
         return ["call", self.callee(fctx), [self.read_name(fctx)] if self.p(0.5) else []]
 
+    def scoped_attr(self, d, fctx):
+        """attribute / method call written directly on an expression that opens a scope of its own (comprehension,
+        generator expression, lambda): `[c for c in r].u`, `(lambda p: p).v(_K)`"""
+        self.features.add("scopedAttr")
+        r = self.rng.random()
+        if r < 0.35:
+            base = ["listComp", self.expr(d - 1, fctx, small=True), self.gens(d, fctx)]
+        elif r < 0.55:
+            base = ["genExp", self.expr(d - 1, fctx, small=True), self.gens(d, fctx)]
+        elif r < 0.70:
+            base = ["setComp", self.expr(d - 1, fctx, small=True), self.gens(d, fctx)]
+        elif r < 0.85:
+            base = ["dictComp", self.expr(d - 1, fctx, small=True), self.expr(d - 1, fctx, small=True), self.gens(d, fctx)]
+        else:
+            base = ["lambda", self.args(d, fctx, lam=True), self.expr(d - 1, fctx, small=True)]
+        e = ["attr", base, self.ch(self.A)]
+        if self.p(0.3):
+            e = ["attr", e, self.ch(self.A)]
+        if self.p(0.5):
+            e = ["call", e, [self.expr(d - 1, fctx, small=True) for _ in range(self.ch([0, 1]))]]
+        return e
+
     def expr(self, d, fctx, small=False):
         r = self.rng.random()
         if d <= 0 or (small and r < 0.6):
@@ -832,8 +854,10 @@ class Gen(object):
             return self.read_name(fctx)
         if r < 0.34:
             return self.chain(fctx)
-        if r < 0.40:
+        if r < 0.37:
             return ["const"]
+        if r < 0.40:
+            return self.scoped_attr(d, fctx)
         if r < 0.52:
             return ["call", self.callee(fctx), [self.expr(d - 1, fctx, small=True) for _ in range(self.ch([0, 1, 1, 2]))]]
         if r < 0.58:
